@@ -990,6 +990,9 @@ func (a *Analysis) ruleRefuse() {
 				rule = "C13.cancel"
 			}
 			a.add("C13", rule, pr.When+"/"+pr.What, "after %s: %s on h%d returned err=%v (want %s)", pr.When, pr.What, pr.Handle, pr.Err, errClassNames[want])
+			// the same observation under C09: a scope that survived the Close / cancellation of what
+			// it hangs on answers with something that is neither a valid result nor a documented error
+			a.add("C09", "C09.valid", "escaped-scope/"+pr.When, "after %s: %s on h%d returned err=%v (want %s): the scope escaped the close of its chain", pr.When, pr.What, pr.Handle, pr.Err, errClassNames[want])
 		}
 	}
 }
